@@ -95,7 +95,7 @@ def r_track(ctx):
     ok = False
     msg = "no zip of the tracked list with the recovered multipliers"
     rec_call = [s for s in flow.stmts_of(fn, ast.Assign) if isinstance(s.value, ast.Call) and call_name(s.value) == "_recover_dual_values"]
-    names = [e.id for e in rec_call[0].targets[0].elts] if rec_call and isinstance(rec_call[0].targets[0], ast.Tuple) else []
+    names = [dotted(e) for e in rec_call[0].targets[0].elts] if rec_call and isinstance(rec_call[0].targets[0], ast.Tuple) else []
     if len(zips) == 1 and len(zips[0].args) == 2 and len(names) == 2:
         a, b = zips[0].args
         ok = dotted(a) == "self." + TRACKED and isinstance(b, ast.Subscript) and dotted(b.value) == names[0] and isinstance(b.slice, ast.Slice) \
@@ -144,10 +144,13 @@ def r_track(ctx):
                "exactly one multiplier is emitted per tracked object on every branch" if ok else
                "multipliers emitted per tracked object: %s" % {k: sorted(v) for k, v in pc.items()}, loc(fn, lp))
         before = [n for s in fn.body for n in ast.walk(s) if is_out_append(n) and n.lineno < lp.lineno]
-        okf = len(before) == 1
+        # the list may also start as the literal [residual]
+        lit = [s0 for s0 in fn.body if isinstance(s0, ast.Assign) and dotted(s0.targets[0]) == out_name and isinstance(s0.value, ast.List) and s0.lineno < lp.lineno]
+        n_before = len(before) + (len(lit[-1].value.elts) if lit else 0)
+        okf = n_before == 1
         ctx.ob("R-TRACK", "%s._recover_dual_values::residual first" % be.name, okf,
                "the Gram residual is the first element of the recovered list" if okf else
-               "%d elements are emitted before the loop over tracked objects (expected the Gram residual only)" % len(before), loc(fn, fn))
+               "%d elements are emitted before the loop over tracked objects (expected the Gram residual only)" % n_before, loc(fn, fn))
 
 
 def _returned_list_name(fn):
@@ -780,9 +783,12 @@ def r_sign(ctx):
     fn = mb.methods["_recover_dual_values"]
     out = _returned_list_name(fn)
     bars, ys = [], []
-    for n in ast.walk(fn):
-        if isinstance(n, ast.Call) and call_name(n) == "append" and dotted(n.func.value) == out:
-            a = n.args[0]
+    items = [n.args[0] for n in ast.walk(fn) if isinstance(n, ast.Call) and call_name(n) == "append" and dotted(n.func.value) == out]
+    for s0 in flow.stmts_of(fn, ast.Assign):
+        if dotted(s0.targets[0]) == out and isinstance(s0.value, ast.List):
+            items = list(s0.value.elts) + items
+    for a in items:
+        if True:
             neg = isinstance(a, ast.UnaryOp) and isinstance(a.op, ast.USub)
             txt = src(a)
             if "getbarsj" in txt:
@@ -948,6 +954,12 @@ def r_baridx(ctx):
                 if len(c.args) <= pos:
                     continue
                 a = c.args[pos]
+                if isinstance(a, ast.Name):
+                    # a local bound once to an index expression is judged (and keyed) as that expression
+                    ds = [s0 for s0 in flow.stmts_of(fn, ast.Assign) if dotted(s0.targets[0]) == a.id]
+                    augs = [s0 for s0 in flow.stmts_of(fn, ast.AugAssign) if dotted(s0.target) == a.id]
+                    if len(ds) == 1 and not augs and not isinstance(ds[0].value, ast.Constant):
+                        a = ds[0].value
                 n += 1
                 ok, why = _bar_index_ok(fn, a)
                 ctx.ob("R-BARIDX", "MosekWrapper.%s::%s(%s)" % (fn.name, call_name(c), anon_src(a)), ok, why, loc(fn, c))
@@ -1184,7 +1196,21 @@ def r_lmienc(ctx):
                 cm = chosen[0]
                 rr, cc = src(cm.args[1]).replace(" ", ""), src(cm.args[2]).replace(" ", "")
                 pos_ok = rr in ("[max(%s,%s)]" % (i_, j_), "[max(%s,%s)]" % (j_, i_)) and cc in ("[min(%s,%s)]" % (i_, j_), "[min(%s,%s)]" % (j_, i_))
-                got[diag] = (_fold(cm.args[3].elts[0], diag, (i_, j_)), pos_ok, rr, cc)
+                coef = cm.args[3].elts[0]
+                if isinstance(coef, ast.Name):
+                    ds = [s0 for s0 in flow.stmts_of(fn, ast.Assign) if dotted(s0.targets[0]) == coef.id]
+                    live = []
+                    for d0 in ds:
+                        reach = True
+                        for t, br, _if in flow.conditions_guarding(d0):
+                            if bool(_fold(t, diag, (i_, j_))) != br:
+                                reach = False
+                        if reach:
+                            live.append(d0)
+                    if len(live) != 1:
+                        raise AnalysisError("coupling coefficient `%s` has %d reaching definitions" % (coef.id, len(live)))
+                    coef = live[0].value
+                got[diag] = (_fold(coef, diag, (i_, j_)), pos_ok, rr, cc)
             okm = got[True][0] == -1 and got[False][0] == Fraction(-1, 2) and got[True][1] and got[False][1]
             msg = "entry (i, j) is coupled with -1 on the diagonal and -1/2 off the diagonal at (max, min)" if okm else \
                 "coupling coefficient is %s on the diagonal and %s off the diagonal at (%s, %s); a lower-triangular symmetric entry counts twice, so -1 / -1/2 at (max, min) is required" % (
